@@ -59,7 +59,8 @@ def patterns(max_len, sgs=range(1, 231)):
 
 def pattern_strategy(item):
     return st.fixed_dictionaries({
-        "crystal": gx.crystal_descs(sgs=[item["sg"]], force_letters=item["letters"], anchor=True, species=[8, 14, 26, 50]),
+        "crystal": gx.crystal_descs(sgs=[item["sg"]], force_letters=item["letters"], anchor=True, species=[8, 14, 26, 50],
+                                    salt=(item["sg"] * 7 + sum(gx.LETTERS.index(c) * (i + 1) for i, c in enumerate(item["letters"]))) % 89),
         "pres": gx.presentations()})
 
 
